@@ -13,6 +13,7 @@ RULES = {
     "C14.R1": lambda ctx: detrules.hermes_state(ctx, "C14.R1"),
     "C14.R2": lambda ctx: detrules.hermes_lookup(ctx, "C14.R2"),
     "C14.R4": lambda ctx: decoderrules.field_coverage(ctx, "C14.R4"),
+    "C14.R4d": lambda ctx: encrules.version(ctx, "C14.R4d"),
     "C14.R4b": lambda ctx: bldrules.hermes_permutation(ctx, "C14.R4b"),
     "C14.R4c": lambda ctx: encrules.serde_symmetry(ctx, "C14.R4c"),
     "C14.R0": lambda ctx: __import__("rules.foundations", fromlist=["x"]).accessors(ctx, "C14.R0", ['types::Token']),
